@@ -27,6 +27,8 @@ def check(ctx, B, L, R, cfg, ts, labels, out):
             fp = exc_fingerprint(PROP, e)
             if "'nbdime-conflicts'" in str(e):
                 fp += '|key:nbdime-conflicts'       # classifier: the failing key is the record of an earlier merge's conflicts
+            elif "'LOCAL_" in str(e) or "'REMOTE_" in str(e):
+                fp += '|key:leftover-attachment'    # classifier: the failing key is a LOCAL_/REMOTE_ attachment left by an earlier merge
             ctx.violation(fp, 'merge_notebooks raised %s: %s' % (type(e).__name__, str(e)[:200]), case)
         return
     ctx.count('returned')
